@@ -171,7 +171,7 @@ class Check:
         env = dict(os.environ)
         jt = os.path.join(wd, "jtmp")
         os.makedirs(jt, exist_ok=True)
-        opts = env.get("JAVA_TOOL_OPTIONS", "") + " -Djava.io.tmpdir=%s" % jt
+        opts = env.get("JAVA_TOOL_OPTIONS", "") + " -Xss256m -Djava.io.tmpdir=%s" % jt      # (deep recursion over long sequences: stack, not a violation)
         if heap:
             opts += " -Xmx%s" % heap
         env["JAVA_TOOL_OPTIONS"] = opts.strip()
